@@ -22,6 +22,10 @@ TEMPLATES = [
     "select sum(null) filter (where null) from t", "select decode(null)", "select a from t where f(null) = g(null, null)",
     "delete from t where a = f(null)", "select null union select null", "select if(null, null, null)",
     "merge into t using s on t.a = s.a when matched then update set b = null",
+    # several chunks of one call (the DELIMITER pre-pass splits the text; every chunk has its own NULL slots)
+    "delimiter $$\nselect f(null) from t $$\nselect 1 $$", "insert into t values (1, null);\ndelimiter //\nselect case when a then null else 1 end //",
+    "delimiter $$\ncreate table t (a int default null) $$\ndelimiter ;\n", "select null; select f(null); select 2",
+    "delimiter $$\nselect null, a from t $$\nupdate t set a = null where b = null $$\nselect 2 $$",
 ]
 
 
@@ -117,6 +121,16 @@ def oracle(ctx, parser, sql, mode, ac, fmap):
             ctx.violation("input", dict(call=dict(entry=parser, sql=sql, calls=mode, all_columns=ac, fmap=fmap), null=x,
                                         returned=short(got, 1200), requires="substitute(parse(sql), X) = " + short(substitute_default(dflt, x), 1200)))
             break
+    # the value written by this call stays: a later call (here one that parses nothing) must not reach back into the tree already returned
+    st, got = call(parser, sql, mode, ac, fmap, null="FIRST")
+    if st == "ok":
+        snap = copy.deepcopy(got)
+        call(parser, "", mode, ac, fmap, null="SECOND")
+        call(parser, " ; ", "simple", None, None, null="THIRD")
+        n += 1
+        if canon(got) != canon(snap):
+            ctx.violation("history", dict(calls=[dict(entry=parser, sql=sql, calls=mode, all_columns=ac, fmap=fmap, null="FIRST"), dict(entry=parser, sql="", null="SECOND"), dict(entry=parser, sql=" ; ", null="THIRD")],
+                                          observed="the tree returned by the first call changed: " + short(got, 800), requires="unchanged: " + short(snap, 800)))
     return n
 
 
